@@ -365,6 +365,14 @@ def tie_b(prop, cases, seed, tier, priority):
             st, pr = f.result()
             out[futs[f]] = st
             problems += pr
+    # C18 / C19: the items whose zeroize path comes from a `crate = ..` option (they cannot live in the probe crate above)
+    if prop in ('C18', 'C19'):
+        for c in cfgs:
+            st, pr = tieb.run_crateopt(c)
+            out[c]['crate_option_items'] = st['items']
+            for q in pr:
+                q['tag'] = 'zeroize' if prop == 'C18' else 'drop'
+            problems += pr
     # C12, thorough: the default-feature binary once more under Miri, which checks every executed operation for UB
     if prop == 'C12' and (tier == 'thorough' or os.environ.get('VERIF_MIRI') == '1'):
         st, pr = tieb.run('default', cases, seed, 160, r'^(disc|inc|skip|skip_inner|basic|rand)/', None, priority, False, True)
@@ -592,6 +600,8 @@ def check(prop, tier, seed):
             if (p['cfg'], p['case']) not in tieA_cases:
                 model_sem_mismatch.append(p)
             continue
+        elif p['kind'] == 'compile' and p.get('scope') == 'crate-option':
+            owned = prop in ('C18', 'C19', 'C14')
         elif p['kind'] == 'compile':
             # an accepted item whose real expansion does not compile: C02's subject, and a failing input for whichever property owns
             # the slice in which the model and the implementation differ on that very item
